@@ -120,8 +120,9 @@ CLAIMS["C11"] = ("other", "lock-order graph over the resolved call graph + acqui
     "any callee while one is held) and the tree write lock is only taken under a bin lock, paired on all paths with nothing locked inside "
     "-- so the lock-order graph bin -> root is acyclic and no cyclic wait exists under any schedule; the park protocol (flag-gated park, "
     "WAITER bit set by a won CAS, handle published before parking, state re-read after wake-up, last reader unparks on READER|WAITER); the "
-    "initialisation ticket is released on every path and losers yield; writers meeting a forwarding marker move on.",
-    "DESIGN.md §4 C11", TRUST + " The SeqCst requirement of the park protocol's store-buffering pattern is deliberately not armed (DESIGN §7).")
+    "initialisation ticket is released on every path and losers yield; writers meeting a forwarding marker move on; the five accesses of "
+    "the park handshake (a store-buffering pattern) are SeqCst; every loop reachable from a read entry point has a progress witness.",
+    "DESIGN.md §4 C11", TRUST)
 
 CLAIMS["C05"] = ("other", "ESP path-sensitive typestate over MIR + provenance (power-of-two) analysis",
     "Clauses: the entry count is adjusted exactly once per link (put: won empty-bin CAS, append, tree insert) and per unlink "
